@@ -37,12 +37,14 @@ def render : Err → Str
 
 def isTrimCut (c : Nat) : Bool := c == space || c == colon
 
+/-- one `|`-separated piece: `key: value` (split at the first colon, both sides trimmed) or nothing -/
+def pieceSet (piece : Str) : Option KV :=
+  match Str.splitFirst colon piece with
+  | none => none
+  | some (k, v) => some (Str.trim isTrimCut k, Str.trim isTrimCut v)
+
 /-- `NewDesc`: the sequence of `setField(key, val)` calls, in order. -/
-def descSets (s : Str) : List KV :=
-  (Str.splitOn pipe s).filterMap fun piece =>
-    match Str.splitFirst colon piece with
-    | none => none
-    | some (k, v) => some (Str.trim isTrimCut k, Str.trim isTrimCut v)
+def descSets (s : Str) : List KV := (Str.splitOn pipe s).filterMap pieceSet
 
 /-- value of a field after all `setField`s: the last one wins -/
 def descGet (sets : List KV) (key : Str) : Option Str :=
